@@ -139,6 +139,10 @@ var c09Dests = []struct {
 	{"[]byte", reflect.TypeOf([]byte(nil)), false},
 	{"[2]bool", reflect.TypeOf([2]bool{}), false},
 	{"uint8", reflect.TypeOf(uint8(0)), false},
+	{"[]struct{A int;B string}", reflect.TypeOf([]struct {
+		A int    `json:"a"`
+		B string `json:"b"`
+	}(nil)), false},
 	{"int", reflect.TypeOf(int(0)), false},
 	{"int8", reflect.TypeOf(int8(0)), false},
 	{"uint", reflect.TypeOf(uint(0)), false},
@@ -277,6 +281,8 @@ func c09Docs(c *work.Ctx) []string {
 	docs = append(docs, `-12.5e+3`, `"ab\u00e9\ud83d\ude00\n"`, `["\\","\"",""]`, `{"k\u0041":"v"}`, ` [ 1 , 2 ] `, "\n{\n\"a\"\n:\n1\n}\n", `"\ud83d"`, `"\ud83dx"`, `123456789`, `1.0`, `[1.5,-0,1e2]`, `"QUJD"`, `[true,false]`)
 	// number literals that are not integers (a type error for integer destinations wherever the reader stops)
 	docs = append(docs, `0.5`, `-0.5`, `0e1`, `0`, `-0`, `10.5`, `[0.5]`, `{"a":0.5}`, `100`, `-128`)
+	// arrays whose later elements are null or partial objects (what a scratch array holds from an earlier decode shows there)
+	docs = append(docs, `[1,2,3,4,5]`, `[1,2,null,4,null]`, `[{"a":1,"b":"x"},{"a":2,"b":"y"},{"a":3,"b":"z"},{"a":4,"b":"w"}]`, `[{},{"a":7},{},{"b":"q"}]`, `[null,null,null,{"a":1}]`, `["a","b","c","d"]`, `["a",null,null,null]`)
 	// invalid texts (the stream must reject them for every chunking as well)
 	docs = append(docs, `nxll`, `nul`, `tru`, `[true,fa1se]`, `"\uZZZZ"`, `0x1`, `[1,]`, `{"a":1,}`, `[1 2]`, `{"a" 1}`, `"abc`, `[`, `{"a":`, `01`, `1.`, `-`, "\"a\nb\"", `{"a":1}}`, `[1]]`, `1 2`, `{"a":tru}`, `[nul]`, `"\x"`, `"\u12"`)
 	return docs
